@@ -169,6 +169,8 @@ var (
 	tExportSegment    = reflect.TypeOf(types.ExportSegment{})
 	tStateKeyVals     = reflect.TypeOf(types.StateKeyVals{})
 	tLookupMeta       = reflect.TypeOf(types.LookupMetaMapEntry{})
+	tAccOutput        = reflect.TypeOf(types.AccumulatedServiceOutput{})
+	tState            = reflect.TypeOf(types.State{})
 )
 
 var execTypes = []types.WorkExecResultType{types.WorkExecResultOk, types.WorkExecResultOutOfGas, types.WorkExecResultPanic, types.WorkExecResultBadExports, types.WorkExecResultReportOversize, types.WorkExecResultBadCode, types.WorkExecResultCodeOversize}
@@ -184,8 +186,6 @@ func fixedLen(t reflect.Type) int {
 		return types.AuthQueueSize
 	case tReadyQueue, tAccQueue, tTicketsMark:
 		return types.EpochLength
-	case tBitfield:
-		return (types.CoresCount + 7) / 8
 	}
 	return -1
 }
@@ -262,6 +262,34 @@ func (g *gen) fill(v reflect.Value) {
 		return
 	case tCoreIndex:
 		v.SetUint(uint64(g.t.Choose(types.CoresCount, "core_index")))
+		return
+	case tBitfield:
+		// in memory: one octet (0 or 1) per core; on the wire: packed bits
+		bf := make(types.Bitfield, types.CoresCount)
+		for i := range bf {
+			bf[i] = byte(g.t.Choose(2, "assurance_bit"))
+		}
+		v.Set(reflect.ValueOf(bf))
+		return
+	case tAccOutput:
+		// a set: the value of every entry is true
+		n := g.smallLen(4)
+		m := types.AccumulatedServiceOutput{}
+		for i := 0; i < n; i++ {
+			var k types.AccumulatedServiceHash
+			g.fill(reflect.ValueOf(&k).Elem())
+			m[k] = true
+		}
+		v.Set(reflect.ValueOf(m))
+		return
+	case tState:
+		st := v.Addr().Interface().(*types.State)
+		for i := 0; i < t.NumField(); i++ {
+			if t.Field(i).Name != "Theta" { // the aggregate state format (genesis files) has no field for the last accumulation outputs
+				g.fill(v.Field(i))
+			}
+		}
+		_ = st
 		return
 	case tExportSegment:
 		// 4104 octets: one seed decides the content
@@ -550,6 +578,9 @@ func runOne(tt *testing.T, r *sim.Run) {
 	weights := make([]int, len(protos))
 	for i, pr := range protos {
 		weights[i] = pr.weight
+		if only := os.Getenv("H6_ONLY"); only != "" && only != pr.name { // development aid: one type at a time
+			weights[i] = 0
+		}
 	}
 	nVals := t.Range(3, 10, "nvalues")
 	var vals []*value
@@ -565,7 +596,9 @@ func runOne(tt *testing.T, r *sim.Run) {
 			g.fill(reflect.ValueOf(val.v).Elem())
 			val.canon = canonOf(val.v)
 			if st, ok := val.v.(*types.State); ok {
-				val.state = st
+				cp := *st
+				g.fill(reflect.ValueOf(&cp.Theta).Elem())
+				val.state = &cp
 			}
 		}
 		vals = append(vals, val)
